@@ -10,6 +10,7 @@ import (
 	"verif/harness/chkenum"
 	"verif/harness/clienth"
 	"verif/harness/conc"
+	"verif/harness/fluentenum"
 	"verif/harness/flushenum"
 	"verif/harness/getenum"
 	"verif/harness/malformed"
@@ -43,6 +44,7 @@ var runners = map[string]runner{
 	"C13": {"model_checking", clienth.RunC13},
 	"C15": {"model_checking", reconc.Run},
 	"C17": {"model_checking", chkenum.Run},
+	"C18": {"model_checking", fluentenum.Run},
 	"C14": {"fault_enumeration", clienth.RunC14},
 	"C10": {"fault_enumeration", streams.RunC10},
 	"C06": {"model_checking", func(rep *report.Report, tier string) {
